@@ -1,6 +1,7 @@
 package main
 
 import (
+	"os"
 	"fmt"
 	"go/token"
 	"go/types"
@@ -245,7 +246,7 @@ func propC12(c *Ctx) {
 				for _, lf := range phiLeaves(returnValues(r)[0]) {
 					switch v := lf.Val.(type) {
 					case *ssa.Const:
-						if v.Value != nil && v.Value.String() == "true" && !guardedByEdges(cal, r, andT) {
+						if v.Value != nil && v.Value.String() == "true" && !guardedByEdges(cal, r, andT) && !budgetReturn(cal, r) {
 							good = false
 						}
 					case *ssa.BinOp:
@@ -281,7 +282,7 @@ func propC12(c *Ctx) {
 				overSel, overBlock := false, false
 				creg.AllInstrs(func(in ssa.Instruction) {
 					b, ok := in.(*ssa.BinOp)
-					if !ok || b.Op != token.ADD {
+					if !ok || (b.Op != token.ADD && b.Op != token.SUB) {
 						return
 					}
 					if _, isPhi := b.X.(*ssa.Phi); !isPhi {
@@ -299,6 +300,9 @@ func propC12(c *Ctx) {
 						}
 					}
 				})
+				if os.Getenv("SHOVELCHECK_DEBUG") != "" {
+					fmt.Fprintf(os.Stderr, "agg helper: counter over Selected=%v Block=%v\n", overSel, overBlock)
+				}
 				if !overSel || !overBlock {
 					good = false
 				}
@@ -361,6 +365,9 @@ func propC12(c *Ctx) {
 						good = false
 					}
 				}
+			}
+			if os.Getenv("SHOVELCHECK_DEBUG") != "" {
+				fmt.Fprintf(os.Stderr, "agg helper %s good=%v\n", cal, good)
 			}
 			if good {
 				t, _ := boolEdges(x)
@@ -639,4 +646,126 @@ func propC12(c *Ctx) {
 			c.Violation("R12.4", fnName(fn)+"/row-append", fn.Pos(), "no row append found")
 		}
 	}
+}
+
+// budgetReturn: `return true` at the end of a function that spends a budget:
+// a counter that starts at a constant ≤ 1, is decremented by one per event,
+// and every decrement is followed by a test `counter < 0` whose taken edge
+// returns false and whose other edge is the only way on (to the next event,
+// round the loop, or to this return).  Reaching the return then means at most
+// one event happened – the same fact as `n <= 1` on a counter that counts up.
+func budgetReturn(fn *ssa.Function, ret *ssa.Return) bool {
+	var decs []*ssa.BinOp
+	allInstrs(fn, func(in ssa.Instruction) {
+		b, ok := in.(*ssa.BinOp)
+		if !ok || b.Op != token.SUB {
+			return
+		}
+		if n, ok := constInt(b.Y); !ok || n != 1 {
+			return
+		}
+		decs = append(decs, b)
+	})
+	if len(decs) == 0 {
+		return false
+	}
+	isDec := map[ssa.Value]bool{}
+	for _, d := range decs {
+		isDec[d] = true
+	}
+	// the budget's decrements: those whose operand is made of such decrements and constants in [0, 1]
+	// (loop indexes that count down start at a length and drop out here)
+	for changed := true; changed; {
+		changed = false
+		var keep []*ssa.BinOp
+		for _, d := range decs {
+			seen := map[ssa.Value]bool{}
+			okInit, nInit := true, 0
+			var walk func(v ssa.Value, depth int)
+			walk = func(v ssa.Value, depth int) {
+				if seen[v] || depth > 12 {
+					return
+				}
+				seen[v] = true
+				switch x := v.(type) {
+				case *ssa.Phi:
+					for _, e := range x.Edges {
+						walk(e, depth+1)
+					}
+				case *ssa.Const:
+					k, ok := constInt(x)
+					if !ok || k > 1 || k < 0 {
+						okInit = false
+					}
+					nInit++
+				default:
+					if !isDec[v] {
+						okInit = false
+					}
+				}
+			}
+			walk(d.X, 0)
+			if okInit && nInit > 0 {
+				keep = append(keep, d)
+			} else {
+				delete(isDec, d)
+				changed = true
+			}
+		}
+		decs = keep
+	}
+	if len(decs) == 0 {
+		return false
+	}
+	for _, d := range decs {
+		// the test of this decrement
+		neg, nonNeg := cmpEdges(fn, func(b *ssa.BinOp) bool {
+			if b.X != ssa.Value(d) {
+				return false
+			}
+			k, ok := constInt(b.Y)
+			return ok && ((b.Op == token.LSS && k == 0) || (b.Op == token.LEQ && k == -1) || (b.Op == token.EQL && k == -1))
+		})
+		nn2, neg2 := cmpEdges(fn, func(b *ssa.BinOp) bool {
+			if b.X != ssa.Value(d) {
+				return false
+			}
+			k, ok := constInt(b.Y)
+			return ok && ((b.Op == token.GEQ && k == 0) || (b.Op == token.GTR && k == -1) || (b.Op == token.NEQ && k == -1))
+		})
+		neg, nonNeg = append(neg, neg2...), append(nonNeg, nn2...)
+		if len(neg) == 0 || len(nonNeg) == 0 {
+			return false
+		}
+		// exhausted budget: only `return false`
+		for _, e := range neg {
+			bad := false
+			reach(Site{e.To, -1}, func(in ssa.Instruction) bool {
+				if r, ok := in.(*ssa.Return); ok {
+					k, isC := returnValues(r)[0].(*ssa.Const)
+					if !isC || k.Value == nil || k.Value.String() != "false" {
+						bad = true
+					}
+				}
+				return false
+			}, nil)
+			if bad {
+				return false
+			}
+		}
+		// nothing goes on after the decrement except over the "budget left" edge
+		hit, _ := reach(siteOf(d), func(in ssa.Instruction) bool {
+			if in == ssa.Instruction(ret) {
+				return true
+			}
+			if b, ok := in.(*ssa.BinOp); ok && isDec[b] {
+				return true
+			}
+			return false
+		}, newCuts().addEdges(nonNeg))
+		if hit {
+			return false
+		}
+	}
+	return true
 }
